@@ -1289,4 +1289,81 @@ theorem inv4_of_runs {n deps mgmt} {tr : List Ev} {s : St} (h : Runs (init n dep
   | nil => exact inv4_init n deps mgmt
   | snoc hr hs ih => exact inv4_step (inv1_of_runs hr) ih hs
 
+/-! ### The model's `wanted` is the specification's `Wanted` -/
+
+theorem wanted_iff_spec {n : Nat} {deps : Nat → List Nat} {mgmt : Bool} {tr : List Ev} {s : St}
+    (h1 : Inv1 n deps mgmt s) (h2 : Inv2 tr s) (hspec : AsDepSpec s) (m : Nat) :
+    wanted s m = true ↔ Wanted deps mgmt (enabledOf tr) m := by
+  unfold wanted Wanted
+  rw [← h1.hmgmt, ← h1.hdeps]
+  have hen : ∀ x, enabledOf tr x = s.enabled x := fun x => (h2.en x).symm
+  simp only [hen]
+  constructor
+  · intro h
+    simp only [Bool.or_eq_true, Bool.not_eq_true'] at h
+    rcases h with (h | h) | h
+    · exact Or.inl h
+    · exact Or.inr (Or.inl h)
+    · obtain ⟨e, _, he, ht⟩ := (hspec m).mp h
+      exact Or.inr (Or.inr ⟨e, he, ht⟩)
+  · intro h
+    simp only [Bool.or_eq_true, Bool.not_eq_true']
+    rcases h with h | h | ⟨e, he, ht⟩
+    · exact Or.inl (Or.inl h)
+    · exact Or.inl (Or.inr h)
+    · exact Or.inr ((hspec m).mpr ⟨e, h2.en_lt e he, he, ht⟩)
+
+
+/-! ### Reading `lifeOf` off the history: the last start/stop event of a module -/
+
+theorem lifeUpd_apply (f : Nat → Nat) (e : Ev) (d : Nat) :
+    lifeUpd f e d = if touches d e then lifeCodeOf e else f d := by
+  cases e with
+  | beg k m => cases k <;> simp [lifeUpd, touches, lifeCodeOf, set] <;> (split <;> simp_all [eq_comm])
+  | fin k m ok => cases k <;> cases ok <;> simp [lifeUpd, touches, lifeCodeOf, set] <;> (split <;> simp_all [eq_comm])
+  | _ => simp [lifeUpd, touches]
+
+theorem foldl_lifeUpd (tr : List Ev) (f0 : Nat → Nat) (d : Nat) :
+    (tr.foldl lifeUpd f0) d = match lastTouch d tr with | some e => lifeCodeOf e | none => f0 d := by
+  induction tr generalizing f0 with
+  | nil => simp [lastTouch]
+  | cons e es ih =>
+    simp only [List.foldl_cons, lastTouch]
+    rw [ih]
+    cases lastTouch d es with
+    | some x => simp
+    | none => simp [lifeUpd_apply]; split <;> simp_all
+
+theorem lastTouch_touches {d : Nat} {tr : List Ev} {e : Ev} (h : lastTouch d tr = some e) : touches d e = true := by
+  induction tr with
+  | nil => simp [lastTouch] at h
+  | cons x xs ih =>
+    simp only [lastTouch] at h
+    cases hx : lastTouch d xs with
+    | some y => rw [hx] at h; simp at h; subst h; exact ih hx
+    | none => rw [hx] at h; simp at h; obtain ⟨h1, h2⟩ := h; subst h2; exact h1
+
+theorem lifeOf_eq_lastTouch (tr : List Ev) (d : Nat) :
+    lifeOf tr d = match lastTouch d tr with | some e => lifeCodeOf e | none => 0 := by
+  unfold lifeOf; rw [foldl_lifeUpd]
+
+/-! ### Data for the non-vacuity examples of PBProofs/C01.lean -/
+
+/-- A diamond: 1 and 2 depend on 0, 3 depends on 1 and 2. -/
+def diamond : Nat → List Nat
+  | 1 => [0]
+  | 2 => [0]
+  | 3 => [1, 2]
+  | _ => []
+
+/-- Start with overlapping callbacks (1 and 2 start concurrently), then Shutdown. -/
+def diamondHistory : List Ev :=
+  [.call .start,
+   .beg .prep 0, .fin .prep 0 true, .beg .prep 2, .beg .prep 1, .fin .prep 1 true, .fin .prep 2 true,
+   .beg .prep 3, .fin .prep 3 true, .passEnd,
+   .beg .start 0, .fin .start 0 true, .beg .start 1, .beg .start 2, .fin .start 2 true, .fin .start 1 true,
+   .beg .start 3, .fin .start 3 true, .passEnd, .ret .start true,
+   .call .shutdown, .beg .stop 3, .fin .stop 3 true, .beg .stop 2, .beg .stop 1, .fin .stop 1 false,
+   .fin .stop 2 true, .beg .stop 0, .fin .stop 0 true, .passEnd, .ret .shutdown false]
+
 end PB.Modules
